@@ -108,6 +108,11 @@ def run(ctx, chk, tier):
         for o in rets:
             fors = [e for e in o.events if e["kind"] == "for"]
             apps = [e for e in o.events if e["kind"] == "elem_append"]
+            if not fors and not apps and not getattr(getattr(o.value, "lst", o.value), "comp", None):
+                # a return path that bypasses the crossing detection altogether (a fast path for special inputs): its result is not
+                # covered by the crossing / interpolation / fallback obligations below
+                chk.unknown("R17", "%s: a return path skips the crossing detection (%s): %s" % (tag, pc_text(o)[-160:], show(o.value, 120)))
+                continue
             for e in apps:
                 r = rank(e["value"], env_rank)
                 inloop = e["loops"]
